@@ -6,6 +6,9 @@ import (
 	"math/rand"
 	"sort"
 	"strings"
+	"sync"
+	"sync/atomic"
+	"time"
 
 	"github.com/gocql/gocql"
 
@@ -32,7 +35,7 @@ func init() {
 			}
 			return []runner.Phase{
 				{Name: "box", Variant: "plain", Cases: c10boxCount(), Run: c10box, Required: []string{"nts_cases", "simple_cases", "picks"}},
-				{Name: "random", Variant: "plain", Cases: n, Run: c10random, Required: []string{"nts_cases", "simple_cases", "vnode_rings", "unknown_dc_keyspaces", "lookups", "picks", "hashed_murmur_rings"}},
+				{Name: "random", Variant: "plain", Cases: n, Run: c10random, Required: []string{"nts_cases", "simple_cases", "vnode_rings", "unknown_dc_keyspaces", "lookups", "picks", "hashed_murmur_rings", "policy_host_removed", "policy_keyspace_change_overlaps_ring_change"}},
 			}
 		},
 	})
@@ -219,7 +222,56 @@ func c10check(c *runner.Ctx, cfg *c10cfg, probes []int64) {
 		// hosts / partitioner / keyspace in any order, nodes joining one by one later,
 		// nodes leaving and coming back
 		part := "org.apache.cassandra.dht." + cfg.partitioner
-		switch order := int(runner.H(cfg.String()) % 5); order {
+		slowMeta := int32(0)
+		gocql.VerifInitTokenAware(pol, "ks", func(string) (*gocql.KeyspaceMetadata, error) {
+			if atomic.LoadInt32(&slowMeta) == 1 {
+				time.Sleep(150 * time.Microsecond) // the schema query a KeyspaceChanged has to wait for
+			}
+			return ks, nil
+		})
+		switch order := int(runner.H(cfg.String()) % 7); order {
+		case 5:
+			// a node that is not part of this ring (the only member of a rack of its own) was known and has been
+			// removed again: what is left must be exactly this ring's placement
+			var maxTok int64
+			for _, n := range cfg.nodes {
+				for _, t := range n.toks {
+					if t > maxTok {
+						maxTok = t
+					}
+				}
+			}
+			extra := gocql.VerifNewHostInfo("extra", []byte{10, 9, 9, 9}, 9042, cfg.nodes[0].dc, "rack-of-its-own", []string{c10tokStr(cfg.partitioner, maxTok+12345), c10tokStr(cfg.partitioner, maxTok+999)}, true)
+			pol.SetPartitioner(part)
+			for k, h := range hosts {
+				pol.AddHost(h)
+				if k == len(hosts)/2 {
+					pol.AddHost(extra)
+					pol.KeyspaceChanged(gocql.KeyspaceUpdateEvent{Keyspace: "ks"})
+				}
+			}
+			pol.RemoveHost(extra)
+			c.Add("policy_host_removed", 1)
+		case 6:
+			// a schema event (KeyspaceChanged, waiting for the keyspace description) overlaps a ring change
+			pol.SetPartitioner(part)
+			for _, h := range hosts[:len(hosts)-1] {
+				pol.AddHost(h)
+			}
+			atomic.StoreInt32(&slowMeta, 1)
+			var wg sync.WaitGroup
+			wg.Add(2)
+			go func() { defer wg.Done(); pol.KeyspaceChanged(gocql.KeyspaceUpdateEvent{Keyspace: "ks"}) }()
+			go func() {
+				defer wg.Done()
+				if len(hosts)%2 == 0 {
+					time.Sleep(50 * time.Microsecond)
+				}
+				pol.AddHost(hosts[len(hosts)-1])
+			}()
+			wg.Wait()
+			atomic.StoreInt32(&slowMeta, 0)
+			c.Add("policy_keyspace_change_overlaps_ring_change", 1)
 		case 0:
 			for _, h := range hosts {
 				pol.AddHost(h)
